@@ -1018,6 +1018,92 @@ def d_timer(ctx: fw.Ctx) -> list[fw.Case]:
     return cases
 
 
+# ----------------------------------------------------------------------------------------- D: what a pass of the killer picks
+def ksweep_cases(ctx: fw.Ctx, sc: dict, w: cw.World) -> list[fw.Case]:
+    """Every pass of daemon_killer: the daemons it schedules a stop_daemon for, per memory, against `ksnap_sers` evaluated on the
+    memory as the implementation held it when the first of them was scheduled (= when its daemons were snapshotted)."""
+    order = [h['id'] for h in sc['handlers']]
+    idx = {hid: k for k, hid in enumerate(order)}
+    specs = {h['id']: h for h in sc['handlers']}
+    cases = []
+    passes: list[list[dict]] = []
+    for e in w.log:
+        if e['kind'] == 'kpass':
+            passes.append([])
+        elif passes and e['kind'] in ('kenter', 'ksweep'):
+            passes[-1].append(e)
+    for evs in passes:
+        listed = {e['uid'] for e in evs if e['kind'] == 'kenter'}
+        by_uid: dict[str, list[dict]] = {}
+        for e in evs:
+            if e['kind'] == 'ksweep' and e['ser'] in w.instances:
+                by_uid.setdefault(w.instances[e['ser']]['uid'], []).append(e)
+        for uid in sorted(listed | set(by_uid)):
+            sw = by_uid.get(uid, [])
+            if not sw:
+                ctx.count('killer_pass', 'listed memory without running daemons (or none left when reached)')
+                continue
+            snap = sw[0]['snap']
+            run = cq.clist(
+                cq.cpair(cq.cnat(idx[r['id']]),
+                         f"{{| i_ser := {cq.cnat(_local_ser(w, uid, r['ser']))}; i_h := {c_hcfg(specs[r['id']])}; "
+                         f"i_sp := {c_stopper(r['when'], r['reasons'], r['when'] is not None)}; i_canc := false |}}")
+                for r in snap['running'])
+            st = (f"{{| o_running := {run}; o_forever := nil; o_live := nil; o_next := 0%nat; o_known := {cq.cbool(uid in listed)}; "
+                  f"o_gone := false; o_kstop := nil; o_kiter := false; o_delays := nil |}}")
+            got = [_local_ser(w, uid, e['ser']) for e in sw]
+            cases.append(fw.Case(f"nlist_eqb (ksnap_sers {st}) {cq.clist(cq.cnat(x) for x in got)}",
+                                 {'scenario': sc, 'uid': uid, 't': sw[0]['t'], 'listed': uid in listed, 'snapshot': snap, 'scheduled': got},
+                                 diag=f"ksnap_sers {st}"))
+            ctx.count('killer_pass', f"{sw[0]['reason'][0]}: {min(len(got), 3)}{'+' if len(got) > 3 else ''} daemon(s) scheduled")
+            # monitor: the pass must take every running daemon of a memory it lists, and none of a memory it does not list
+            want = [r['ser'] for r in snap['running']]
+            if uid in listed and sorted(want) != sorted(e['ser'] for e in sw):
+                ctx.fail('a pass of the daemon killer did not schedule the stop of every running daemon of a memory it holds',
+                         {'scenario': sc, 'uid': uid, 't': sw[0]['t']}, observed=got, expected=want, sig='killer-skipped')
+    return cases
+
+
+# ----------------------------------------------------------------------------------------- D: _daemon under a set stopper
+def run_daemon_case(c: dict) -> tuple:
+    h = {'id': 'd', 'kind': 'daemon', 'temper': c['temper'], 'dur': 500, 'backoff': None, 'timeout': None, 'polling': None}
+    w = cw.World([h], with_killer=False)
+    try:
+        with vloop.running(w.loop), cw.quiet():
+            w.act({'op': 'create', 'uid': 'u0', 'match': ['d']})
+            w.run_to(250 if c['point'] == 'run' else 750)      # inside the function / inside the retry-delay sleep
+            inst = w.instances.get(0)
+            if inst is None:
+                raise cw.ObservationPointMissing('daemon instance not spawned')
+            before = w.sleeps
+            from kopf._core.intents import stoppers
+            inst['stopper'].set(reason=stoppers.DaemonStoppingReason.OPERATOR_EXITING)
+            w.run_to(w.now() + 3000)
+            return bool(w.stalls), w.sleeps - before, inst['ended'] is not None, list(w.stalls)
+    finally:
+        w.close()
+
+
+def d_daemon_tail(ctx: fw.Ctx) -> list[fw.Case]:
+    cases = []
+    for c in ({'temper': 'retry', 'point': 'run'}, {'temper': 'retry', 'point': 'sleep'}, {'temper': 'own', 'point': 'run'},
+              {'temper': 'obeys', 'point': 'run'}):
+        stalled, n, ended, stalls = run_daemon_case(c)
+        p = 'DTop' if c['point'] == 'sleep' else f"(DAfterRun {cq.cbool(c['temper'] == 'retry')})"
+        call = f'daemon_tail 6 {p}'
+        term = (f'match {call} with None => true | Some _ => false end' if stalled
+                else f'match {call} with Some n => Nat.eqb n {cq.cnat(n)} | None => false end')
+        cases.append(fw.Case(term, {**c, 'stalled': stalled, 'sleeps_after_stop': n, 'ended': ended}, diag=call))
+        ctx.count('daemon_tail', f"{c['temper']}/{c['point']}: {'stall' if stalled else 'exit'}")
+        data = {'table': 'daemon', **c}
+        for s_ in stalls:
+            ctx.fail('a coroutine of the operator spins without yielding to the event loop (the whole operator is blocked)',
+                     {**data, 'stall': s_}, observed=s_, sig='stall')
+        if not stalled and not ended:
+            ctx.fail('a daemon whose stop flag is set and whose function returned did not end', data, sig='daemon-not-ended')
+    return cases
+
+
 # ----------------------------------------------------------------------------------------- known findings
 # F1 (idle-only timer busy loop, fixed by ba077d7) and F901 (daemon_killer dict iteration, fixed by c948bdc) are FIXED: a stall or a
 # killer crash is a VIOLATION again; their corpus witnesses are regression cases that must pass.
@@ -1082,7 +1168,9 @@ def run(ctx: fw.Ctx) -> int:
             ctx.differential('stage', HEADER, d_stage(ctx), shard=150)
             ctx.differential('linear', HEADER, d_linear(ctx), shard=150)
             ctx.differential('timer', HEADER, d_timer(ctx), shard=150)
+            ctx.differential('daemon_tail', HEADER, d_daemon_tail(ctx), shard=150)
             hist: list[fw.Case] = []
+            ksw: list[fw.Case] = []
             scs = corpus()
             ncorpus = len(scs)
             n = ctx.scale(500, 12000)
@@ -1093,6 +1181,7 @@ def run(ctx: fw.Ctx) -> int:
                     w = run_scenario(sc)
                 monitors(ctx, sc, w)
                 hist += history_cases(ctx, sc, w)
+                ksw += ksweep_cases(ctx, sc, w)
                 if nontrivial(w):
                     ctx.nontriv(sc)
                 if k >= ncorpus:
@@ -1110,6 +1199,7 @@ def run(ctx: fw.Ctx) -> int:
                     for r in rs:
                         ctx.count('reason_reached', r)
             ctx.differential('history', HEADER, hist, shard=40)
+            ctx.differential('ksweep', HEADER, ksw, shard=150)
         except cw.Hang as exc:
             ctx.fail('the check itself was blocked: a coroutine of the operator never yields', {'hang': str(exc)}, sig='hang')
     return ctx.finish(RULE, level_note=[
